@@ -79,15 +79,76 @@ def variants(line, rng):
         return out
     return out
 
+WORD_ALPHA = [b"/", b".", b"a", b"~", b"0", b"1", b"}", b":", b"~0", b"~1", b"."]
+PTR_ALPHA = [b"/", b"/", b".", b"a", b"a", b"~0", b"~1", b"0", b"-", b"}", b"\xef\xbd\x9e", b"\xf0\x9f\x98\x80"]
+
+def _rand_str(rng, lo=8, hi=24):
+    return b"".join(rng.choice(WORD_ALPHA) for _ in range(rng.randint(lo, hi)))
+
+def _rand_ptr(rng, lo=7, hi=24):
+    """a valid pointer text of word-scale length over a tiny alphabet rich in neighbours of the special bytes"""
+    n = rng.randint(lo, hi)
+    out = b"/"
+    while len(out) < n: out += rng.choice(PTR_ALPHA)
+    return out
+
+def wordscale(prop, lines, rng, n):
+    """random inputs of 8..24 bytes over {/ . a ~ 0 1 } : ~0 ~1 ～ 😀}: long enough to cross word / block
+    boundaries, dense in the bytes that differ from `/`, `~`, `0`, `9` by one bit or by one — the inputs on
+    which word-at-a-time scanners and bit tricks go wrong"""
+    ops = sorted(set(l.split(" ", 1)[0] for l in lines))
+    out = []
+    if not ops: return out
+    templates = {}
+    for l in lines:
+        templates.setdefault(l.split(" ", 1)[0], []).append(l)
+    for _ in range(n):
+        op = rng.choice(ops)
+        if op in STR_OPS:
+            s = _rand_str(rng)
+            if STR_OPS[op] == "after_slash" and rng.random() < 0.85: s = b"/" + s
+            out.append(f"{op} {_hex(s)}")
+        elif op == "index_str":
+            k = rng.randint(7, 20)
+            digs = bytes(rng.choice(b"0123456789") for _ in range(k))
+            if rng.random() < 0.8:
+                pos = rng.randrange(k); digs = digs[:pos] + rng.choice([b":", b"/", b";", b"?", b"+", b" "]) + digs[pos + 1:]
+            if digs[:1] == b"0" and rng.random() < 0.8: digs = b"1" + digs[1:]
+            out.append(f"{op} {_hex(digs)}")
+        elif op in PTR_ARGS:
+            t = rng.choice(templates[op]).split(" ")
+            idxs = PTR_ARGS[op]
+            base = _rand_ptr(rng)
+            for j, i in enumerate(idxs):
+                if i >= len(t): continue
+                if j == 0: t[i] = _hex(base)
+                else:
+                    # related second/third pointer: a token-prefix, a token-suffix, a same-length sibling, or fresh
+                    cuts = [k for k in range(len(base)) if base[k:k + 1] == b"/"]
+                    r = rng.random()
+                    if r < 0.3: t[i] = _hex(base[:rng.choice(cuts)])
+                    elif r < 0.5: t[i] = _hex(base[rng.choice(cuts):])
+                    elif r < 0.7:
+                        sib = bytearray(base); k = rng.randrange(1, len(sib))
+                        if sib[k] == 0x61: sib[k] = 0x2e
+                        t[i] = _hex(bytes(sib))
+                    else: t[i] = _hex(_rand_ptr(rng))
+            if op == "split_at" and len(t) > 2: t[2] = str(rng.randint(0, len(base) + 1))
+            out.append(" ".join(t))
+    return out
+
 def augment(prop, lines, seed, budget=40000):
     """extra lines derived from a deterministic sample of `lines`"""
     rng = random.Random(seed * 1000003 + int(prop[1:]))
     cand = [l for l in lines if l.split(" ", 1)[0] in STR_OPS or l.split(" ", 1)[0] in PTR_ARGS]
-    if not cand: return []
+    if not cand and not any(l.startswith("index_str") for l in lines): return []
     # short lines first (the exhaustive scopes), then a random sample
     short = sorted(set(l for l in cand if len(l) <= 24))[:1200]
-    rest = rng.sample(cand, min(1800, len(cand)))
+    rest = rng.sample(cand, min(1800, len(cand))) if cand else []
     seen, out = set(lines), []
+    for v in wordscale(prop, lines, rng, budget // 3):
+        if v not in seen:
+            seen.add(v); out.append(v)
     for l in short + rest:
         for v in variants(l, rng):
             if v not in seen:
